@@ -332,7 +332,7 @@ func c16Judge(acts []c16Action, ex *vsched.Exec, o c16Outcome, ref map[string]bo
 	for i := range acts {
 		for j := i + 1; j < len(acts); j++ {
 			if acts[i].Name == acts[j].Name && strings.HasPrefix(acts[i].Kind, "onetime:") && o.Upgraded[i] && o.Upgraded[j] {
-				keys, whats, harm = append(keys, "C16|double-spend|"+acts[i].Handler+"|"+strings.TrimPrefix(acts[i].Kind, "onetime:")), append(whats, fmt.Sprintf("two simultaneous presentations of the same %s were both honoured (schedule %v)", strings.TrimPrefix(acts[i].Kind, "onetime:"), ex.Choices)), true
+				keys, whats, harm = append(keys, "C16|double-spend|"+acts[i].Handler+"|"+strings.TrimPrefix(acts[i].Kind, "onetime:")+"|window="+c16Window(ex)), append(whats, fmt.Sprintf("two simultaneous presentations of the same %s were both honoured (schedule %v)", strings.TrimPrefix(acts[i].Kind, "onetime:"), ex.Choices)), true
 			}
 		}
 	}
@@ -340,6 +340,28 @@ func c16Judge(acts []c16Action, ex *vsched.Exec, o c16Outcome, ref map[string]bo
 		return keys, whats, ""
 	}
 	return keys, whats, "non-serializable-other"
+}
+
+// c16Window names where the race window of a double-spend lies: the point at
+// which the one preempted request was parked when the other one was let run
+// (schedules with exactly one preemption, the minimal witnesses), "multi" for
+// schedules with more preemptions, "none" when no preemption was needed at all
+// (the value is honoured twice even sequentially).
+func c16Window(ex *vsched.Exec) string {
+	n, lab := 0, ""
+	for _, p := range ex.Points {
+		if p.RunningEnabled && p.Chosen != 0 {
+			n++
+			lab = p.Label
+		}
+	}
+	switch n {
+	case 0:
+		return "none"
+	case 1:
+		return lab
+	}
+	return "multi"
 }
 
 func c16Pairs(thorough bool) [][]string {
